@@ -144,6 +144,125 @@ def nums(toks):
     return [float(common.from_wire(t)) for t in toks]
 
 
+# ============================================================================ call styles, grad modes, ownership
+
+import contextlib
+import types
+
+STYLES = ["kw", "kw", "min", "pos", "mix", "kwreq"]
+GMODES = [None] * 6 + ["req", "nograd", "inference", "graph", "param"]
+REQ_NAMES = {"knn": ("ref", "nbr"), "nbr_filter": ("points", "nbr", "radius"), "voxel_filter": ("points", "voxel"),
+             "knn_filter": ("points", "k"), "random_filter": ("points", "num"), "point2pixel": ("points", "intrinsics"),
+             "pixel2point": ("pixels", "depth", "intrinsics"), "reprojerr": ("points", "pixels", "intrinsics")}
+
+
+def same_arg(v, d):
+    if v is None or d is None:
+        return v is None and d is None
+    if isinstance(v, torch.Tensor) or isinstance(d, torch.Tensor):
+        return False
+    return type(v) is type(d) and v == d
+
+
+def detach_all(r):
+    if isinstance(r, torch.Tensor):
+        return r.detach()
+    if hasattr(r, "values") and hasattr(r, "indices") and isinstance(r, tuple):
+        return types.SimpleNamespace(values=r.values.detach(), indices=r.indices.detach())
+    if isinstance(r, tuple):
+        return tuple(detach_all(q) for q in r)
+    return r
+
+
+def styled(name, style, req, opt):
+    """call pypose.<name> passing the optional arguments the way `style` says: all by keyword / only the non-default ones
+    / all positionally / half-half / everything (required ones too) by keyword"""
+    fn = getattr(pp(), name)
+    if style == "pos":
+        r = fn(*req, *[v for _, v, _ in opt])
+    elif style == "min":
+        r = fn(*req, **{n_: v for n_, v, d in opt if not same_arg(v, d)})
+    elif style == "mix":
+        h = (len(opt) + 1) // 2
+        r = fn(*req, *[v for _, v, _ in opt[:h]], **{n_: v for n_, v, d in opt[h:] if not same_arg(v, d)})
+    elif style == "kwreq":
+        r = fn(**dict(zip(REQ_NAMES[name], req)), **{n_: v for n_, v, _ in opt})
+    else:
+        r = fn(*req, **{n_: v for n_, v, _ in opt})
+    return detach_all(r)
+
+
+def prep(x, case):
+    """the tensor as the caller holds it in this grad mode / input type"""
+    gm = case.get("gmode")
+    if gm is None or x is None or not x.is_floating_point():
+        return x
+    if gm == "req":
+        return x.clone().requires_grad_()
+    if gm == "graph":
+        return x.clone().requires_grad_() * 1.0
+    if gm == "param":
+        return torch.nn.Parameter(x.clone())
+    return x
+
+
+def mode_ctx(case):
+    gm = case.get("gmode")
+    if gm == "nograd":
+        return torch.no_grad()
+    if gm == "inference":
+        return torch.inference_mode()
+    return contextlib.nullcontext()
+
+
+def as_scalar(v, case):
+    """radius / sizes the way a caller may write them: a python int when the value is integral"""
+    if case.get("int_scalars") and isinstance(v, float) and math.isfinite(v) and v == int(v) and abs(v) < 2 ** 40:
+        return int(v)
+    return v
+
+
+def owns_memory(ctx, case, label, outs, inputs, recall):
+    """OUTPUTS OWN THEIR MEMORY: write distinct values into every element of every result in place — each must read back
+    (no internal overlap), no argument and no other result may change, and a later identical call must still return
+    the original result (the result is not a window onto a cache)"""
+    if case.get("gmode") is not None or not case.get("own_check"):
+        return True
+    outs = [o_ for o_ in outs if isinstance(o_, torch.Tensor) and o_.numel() > 0]
+    snaps_in = [(t_, t_.detach().clone()) for t_ in inputs if isinstance(t_, torch.Tensor)]
+    originals = [o_.clone() for o_ in outs]
+    for i_, o_ in enumerate(outs):
+        fill = (torch.arange(o_.numel()).reshape(o_.shape) % 2 == 0) if o_.dtype == torch.bool else \
+            (torch.arange(o_.numel(), dtype=torch.float64).reshape(o_.shape) + 3).to(o_.dtype)
+        try:
+            o_.copy_(fill)
+        except Exception as e:
+            ctx.fail(case, f"{label}-output-memory: result #{i_} cannot be written in place: {type(e).__name__}: {str(e)[:100]}")
+            return False
+        if not torch.equal(o_, fill):
+            ctx.fail(case, f"{label}-output-memory: result #{i_} overlaps itself (expanded / stride-0 memory returned)")
+            return False
+        for j_, q_ in enumerate(outs):
+            if j_ > i_ and not torch.equal(torch.nan_to_num(q_.double(), nan=1.5), torch.nan_to_num(originals[j_].double(), nan=1.5)):
+                ctx.fail(case, f"{label}-output-memory: writing into result #{i_} changed result #{j_}")
+                return False
+    for t_, sn in snaps_in:
+        if not torch.equal(torch.nan_to_num(t_.detach().double(), nan=1.5), torch.nan_to_num(sn.double(), nan=1.5)):
+            ctx.fail(case, f"{label}-output-memory: writing into the result changed an argument (the result aliases its input)")
+            return False
+    try:
+        again = [o_ for o_ in recall() if isinstance(o_, torch.Tensor) and o_.numel() > 0]
+    except Exception as e:
+        ctx.fail(case, f"{label}-output-memory: the same call raises after an earlier result was modified: {type(e).__name__}: {str(e)[:100]}")
+        return False
+    for a_, b_ in zip(again, originals):
+        if a_.shape != b_.shape or not torch.equal(torch.nan_to_num(a_.double(), nan=1.5), torch.nan_to_num(b_.double(), nan=1.5)):
+            ctx.fail(case, f"{label}-output-memory: a later identical call returns another result after an earlier result "
+                           f"was modified in place (results share memory with internal state)")
+            return False
+    return True
+
+
 # ============================================================================ cloud construction
 
 _KEPT = {}    # history stream: tensors held by the caller across calls: key -> {"x": typed tensor, "nb": bumps applied}
@@ -160,6 +279,8 @@ def build_cloud(case, item=0, which="pts"):
     N = case["N"] if which == "pts" else case["N2"]
     x = U.gen_cloud(r, N, case["pdim"], case.get("extra", 0), kind, case["dtype"])
     m = mags[item % len(mags)] if mags else case.get("mag_exp", 0)
+    if case["dtype"].startswith("int"):
+        return torch.round(x * 64).clamp(-2.0 ** 20, 2.0 ** 20)      # integer-dtype cloud
     if m:
         x = x * 2.0 ** m          # exact: the whole cloud moved to a tiny / huge magnitude
     return x
@@ -238,7 +359,7 @@ def stacked(case, which="pts"):
     else:
         items = [build_cloud(case, b, which) for b in range(nb)]
     x = torch.stack(items).reshape(tuple(case.get("batch", [])) + tuple(items[0].shape)).to(dt(case))
-    return lay(x, case.get("layout")), items
+    return prep(lay(x, case.get("layout")), case), items
 
 
 def single(case):
@@ -247,7 +368,7 @@ def single(case):
         x = kept(case)
         return x.double(), x
     X64 = build_cloud(case)
-    return X64, lay(X64.to(dt(case)), case.get("layout"))
+    return X64, prep(lay(X64.to(dt(case)), case.get("layout")), case)
 
 
 def spectrum(K: np.ndarray):
@@ -271,8 +392,18 @@ def choose_radius(r: random.Random, K, s, ord_, dtype, exact, mode=None):
     if not sp:
         rad = r.choice([0.0, 1.0, 0.5])
     else:
+        if mode is None and r.random() < 0.25:
+            mode = r.choice(["hit+", "hit-", "hit+", "hit-", "farbelow", "farabove"])
         c = {"hit": 0.0, "mid": 0.5, "below": 0.8, "above": 0.9, "zero": 0.99}.get(mode, r.random())
         j = r.randrange(len(sp))
+        if mode in ("hit+", "hit-", "farbelow", "farabove"):
+            # spacing relative to the threshold: just above / just below a distance that occurs (either sign, far
+            # outside the rounding band), and radii far below the smallest / far above the largest spacing
+            dj = key_to_radius(sp[j], s, ord_)
+            rad = {"hit+": dj * (1 + 2.0 ** -10), "hit-": dj * (1 - 2.0 ** -10),
+                   "farbelow": key_to_radius(sp[0], s, ord_) * 2.0 ** -30,
+                   "farabove": key_to_radius(sp[-1], s, ord_) * 2.0 ** 30}[mode]
+            return float(torch.tensor(rad, dtype=U.DT[dtype]))
         if mode == "hit" and ord_ == 2:
             sq = [q for q in range(len(sp)) if math.isqrt(sp[q]) ** 2 == sp[q]]
             j = r.choice(sq) if sq else j
@@ -364,12 +495,15 @@ def check_knn(ctx: Ctx, case, jobs: Jobs | None = None) -> bool:
     tol = rt(case)
     ok = True
     mon = common.PurityMonitor()
-    kwargs = dict(k=k, ord=U.ord_arg(o), largest=largest, sorted=is_sorted)
-    if case.get("defaults"):
-        kwargs = dict(k=k) if k != 1 else {}
+    style = "min" if case.get("defaults") else case.get("style", "kw")
+
+    def KNN(a_, b_):
+        return styled("knn", style, (a_, b_), [("k", k, 1), ("ord", U.ord_arg(o), 2), ("dim", -1, -1),
+                                               ("largest", largest, False), ("sorted", is_sorted, True)])
     try:
-        res = mon.call("knn", P.knn, ref, nbr, **kwargs)
-        vals, idx = res.values, res.indices
+        res = mon.call("knn", KNN, ref, nbr)
+        vals_o, idx_o = res.values, res.indices
+        vals, idx = vals_o.clone(), idx_o.clone()
     except Exception as e:
         ctx.fail(case, f"knn-raises: knn raises on a valid call: {type(e).__name__}: {str(e)[:120]}")
         return False
@@ -428,12 +562,14 @@ def check_knn(ctx: Ctx, case, jobs: Jobs | None = None) -> bool:
                         ctx.disagree("knn", case, f"batch {b} row {i}: indices {idx_b[i].tolist()} model {mi[i*k:(i+1)*k]}")
                         return
             jobs.add(case["N"] * case["N2"], line, cb)
+    if ok and not owns_memory(ctx, case, "knn", [vals_o, idx_o], [ref, nbr], lambda: (lambda r_: [r_.values, r_.indices])(KNN(ref, nbr))):
+        return False
     # item-wise = batched: every batch item alone must give the row block of the batched call
     if case.get("batch") and ok:
         refs, nbrs = ref.reshape((nB,) + tuple(ref.shape[-2:])), nbr.reshape((nB,) + tuple(nbr.shape[-2:]))
         for b in range(nB):
             try:
-                r1 = P.knn(refs[b], nbrs[b], **kwargs)
+                r1 = KNN(refs[b], nbrs[b])
             except Exception as e:
                 ctx.fail(case, f"knn-itemwise: knn raises on batch item {b} alone: {type(e).__name__}: {str(e)[:100]}")
                 return False
@@ -451,7 +587,7 @@ def check_knn(ctx: Ctx, case, jobs: Jobs | None = None) -> bool:
         sr = list(range(case["N"]))
         r.shuffle(sr)
         try:
-            res2 = P.knn(ref[..., sr, :], nbr[..., sn, :], **kwargs)
+            res2 = KNN(ref[..., sr, :], nbr[..., sn, :])
         except Exception as e:
             ctx.fail(case, f"knn-raises: knn raises on the permuted cloud: {type(e).__name__}: {str(e)[:100]}")
             return False
@@ -528,14 +664,14 @@ def check_nbr(ctx: Ctx, case, jobs: Jobs | None = None) -> bool:
     X64, X = single(case)
     pd = case["pdim"] if pdim is None else pdim
     mon = common.PurityMonitor()
-    kw = dict(nbr=n, radius=radius, ord=U.ord_arg(o), return_mask=True)
-    if pdim is not None:
-        kw["pdim"] = pdim
+    style = case.get("style", "kw")
+    rad_arg = as_scalar(radius, case)
+
+    def NBR(x_, rm):
+        return styled("nbr_filter", style, (x_, n, rad_arg), [("pdim", pdim, None), ("ord", U.ord_arg(o), 2), ("return_mask", rm, False)])
     try:
-        out, mask = mon.call("nbr_filter", P.nbr_filter, X, **kw)
-        kw2 = dict(kw)
-        kw2["return_mask"] = False
-        out2 = P.nbr_filter(X, **kw2)
+        out, mask = mon.call("nbr_filter", lambda x_: NBR(x_, True), X)
+        out2 = NBR(X, False)
     except Exception as e:
         ctx.fail(case, f"nbr-raises: nbr_filter raises on a valid call: {type(e).__name__}: {str(e)[:120]}")
         return False
@@ -548,6 +684,10 @@ def check_nbr(ctx: Ctx, case, jobs: Jobs | None = None) -> bool:
     if not U.rows_equal(out, X[mask]) or not U.rows_equal(out2, out):
         ctx.fail(case, "nbr-select: output is not points[mask] (with and without return_mask)")
         return False
+    out_keep, mask_keep = out.clone(), mask.clone()
+    if not owns_memory(ctx, case, "nbr", [out, mask, out2], [X], lambda: list(NBR(X, True))):
+        return False
+    out, mask = out_keep, mask_keep
     lo, hi, K, d, s, exact = nbr_oracle(case, X64, radius, o, pd)
     if exact:
         ctx.count("nbr.exact-arithmetic-clouds")
@@ -592,7 +732,7 @@ def check_nbr(ctx: Ctx, case, jobs: Jobs | None = None) -> bool:
         sg = list(range(case["N"]))
         r.shuffle(sg)
         try:
-            o3, m3 = P.nbr_filter(X[sg], **kw)
+            o3, m3 = NBR(X[sg], True)
         except Exception as e:
             ctx.fail(case, f"nbr-raises: nbr_filter raises on the permuted cloud: {type(e).__name__}: {str(e)[:100]}")
             return False
@@ -628,7 +768,7 @@ def voxel_oracle(case, X64, vox):
             if frac == 0:
                 # exact multiple: decided exactly iff the subtraction is exact in the dtype
                 f = float(num)
-                if case["dtype"] == "float32":
+                if case["dtype"] != "float64":
                     f = float(torch.tensor(f, dtype=torch.float32))
                 if Fraction(f) != num:
                     amb = True
@@ -652,10 +792,17 @@ def check_voxel(ctx: Ctx, case, jobs: Jobs | None = None) -> bool:
     ukeys = sorted(groups)
     M = len(ukeys)
     eps = U.EPS[case["dtype"]]
+    style = case.get("style", "kw")
+    vform = case.get("vox_form", "list")
+    vox_arg = [as_scalar(v_, case) for v_ in vox]
+    vox_arg = tuple(vox_arg) if vform == "tuple" else vox_arg
+
+    def VOX(x_, rnd_):
+        return styled("voxel_filter", style, (x_, type(vox_arg)(vox_arg)), [("random", rnd_, False)])
     if not case["random"]:
         mon = common.PurityMonitor()
         try:
-            out = mon.call("voxel_filter", P.voxel_filter, X, list(vox))
+            out = mon.call("voxel_filter", lambda x_: VOX(x_, False), X)
         except Exception as e:
             ctx.fail(case, f"voxel-raises: voxel_filter raises on a valid call: {type(e).__name__}: {str(e)[:120]}")
             return False
@@ -665,6 +812,10 @@ def check_voxel(ctx: Ctx, case, jobs: Jobs | None = None) -> bool:
         if tuple(out.shape) != (M, D) or out.dtype != X.dtype:
             ctx.fail(case, f"voxel-count: {tuple(out.shape)} {out.dtype} returned, the cloud occupies {M} voxels (D={D})")
             return False
+        out_keep = out.clone()
+        if not owns_memory(ctx, case, "voxel", [out], [X], lambda: [VOX(X, False)]):
+            return False
+        out = out_keep
         want = torch.stack([X64[groups[kk]].mean(0) for kk in ukeys])
         scale = torch.stack([X64[groups[kk]].abs().amax(0) for kk in ukeys])
         cnts = torch.tensor([len(groups[kk]) for kk in ukeys], dtype=torch.float64).unsqueeze(1)
@@ -712,7 +863,7 @@ def check_voxel(ctx: Ctx, case, jobs: Jobs | None = None) -> bool:
             r = random.Random(case["perm_seed"])
             sg = list(range(N))
             r.shuffle(sg)
-            o2 = P.voxel_filter(X[sg], list(vox)).double()
+            o2 = VOX(X[sg], False).double()
             if o2.shape != got.shape or bool(far(o2, got, 2 * tolm).any()):
                 ctx.fail(case, "voxel-equivariance: result changes under a permutation of the points")
                 return False
@@ -724,7 +875,7 @@ def check_voxel(ctx: Ctx, case, jobs: Jobs | None = None) -> bool:
         if mode == "real":
             torch.manual_seed(case["data_seed"])
         with U.observe_rng(mode, script) as log:
-            out = P.voxel_filter(X, list(vox), random=True)
+            out = VOX(X, True)
     except Exception as e:
         ctx.fail(case, f"voxel-raises: voxel_filter(random=True) raises on a valid call (rng {mode}): "
                        f"{type(e).__name__}: {str(e)[:120]}")
@@ -785,14 +936,14 @@ def check_knnf(ctx: Ctx, case, jobs: Jobs | None = None) -> bool:
     N, D = items[0].shape
     eps = U.EPS[case["dtype"]]
     tol = rt(case)
-    kw = dict(k=k, ord=U.ord_arg(o))
-    if pdim is not None:
-        kw["pdim"] = pdim
-    if radius is not None:
-        kw["radius"] = radius
+    style = case.get("style", "kw")
+    rad_arg = as_scalar(radius, case)
+
+    def KNNF(x_):
+        return styled("knn_filter", style, (x_, k), [("pdim", pdim, None), ("radius", rad_arg, None), ("ord", U.ord_arg(o), 2)])
     mon = common.PurityMonitor()
     try:
-        out = mon.call("knn_filter", P.knn_filter, x, **kw)
+        out = mon.call("knn_filter", KNNF, x)
     except Exception as e:
         if N < k + 1:
             ctx.count("knnf.k-range-error")
@@ -811,6 +962,10 @@ def check_knnf(ctx: Ctx, case, jobs: Jobs | None = None) -> bool:
     if mon.mutations:
         ctx.fail(case, "knnf-mutates: knn_filter changed its argument")
         return False
+    out_keep = out.clone()
+    if not owns_memory(ctx, case, "knnf", [out], [x], lambda: [KNNF(x)]):
+        return False
+    out = out_keep
     outs = out.reshape((-1,) + tuple(out.shape[-2:])).double() if radius is None else out.double().unsqueeze(0)
     if radius is None and tuple(out.shape) != tuple(x.shape):
         ctx.fail(case, f"knnf-shape: {tuple(out.shape)} returned for input {tuple(x.shape)}")
@@ -873,7 +1028,7 @@ def check_knnf(ctx: Ctx, case, jobs: Jobs | None = None) -> bool:
         xs_ = x.reshape((-1, N, D))
         for b in range(xs_.shape[0]):
             try:
-                o1 = P.knn_filter(xs_[b], **kw).double()
+                o1 = KNNF(xs_[b]).double()
             except Exception as e:
                 ctx.fail(case, f"knnf-itemwise: knn_filter raises on batch item {b} alone: {type(e).__name__}: {str(e)[:100]}")
                 return False
@@ -888,7 +1043,7 @@ def check_knnf(ctx: Ctx, case, jobs: Jobs | None = None) -> bool:
         sg = list(range(N))
         r.shuffle(sg)
         try:
-            o2 = P.knn_filter(x[..., sg, :], **kw).double()
+            o2 = KNNF(x[..., sg, :]).double()
         except Exception as e:
             ctx.fail(case, f"knnf-raises: knn_filter raises on the permuted cloud: {type(e).__name__}: {str(e)[:100]}")
             return False
@@ -921,12 +1076,22 @@ def check_randf(ctx: Ctx, case, jobs: Jobs | None = None) -> bool:
         pr = list(range(N))
         random.Random(case["data_seed"] + 3).shuffle(pr)
         script = {"perm": [pr]}
+    style = case.get("style", "kw")
+
+    def RF(x_):
+        return styled("random_filter", style, (x_, num), [])
+
+    def RF_again():
+        if mode == "real":
+            torch.manual_seed(case["data_seed"])
+        with U.observe_rng(mode, script):
+            return [RF(x)]
     mon = common.PurityMonitor()
     try:
         if mode == "real":
             torch.manual_seed(case["data_seed"])
         with U.observe_rng(mode, script) as log:
-            out = mon.call("random_filter", P.random_filter, x, num)
+            out = mon.call("random_filter", lambda x_: RF(x_), x)
     except Exception as e:
         ctx.fail(case, f"randf-raises: random_filter raises on a valid call (N={N}, num={num}): {type(e).__name__}: {str(e)[:120]}")
         return False
@@ -934,9 +1099,13 @@ def check_randf(ctx: Ctx, case, jobs: Jobs | None = None) -> bool:
         ctx.fail(case, "randf-mutates: random_filter changed its argument")
         return False
     want_shape = tuple(case.get("batch", [])) + (num, D)
-    if tuple(out.shape) != want_shape:
-        ctx.fail(case, f"randf-shape: {tuple(out.shape)} returned, documented {want_shape}")
+    if tuple(out.shape) != want_shape or out.dtype != x.dtype:
+        ctx.fail(case, f"randf-shape: {tuple(out.shape)} {out.dtype} returned, documented {want_shape} {x.dtype}")
         return False
+    out_keep = out.clone()
+    if not owns_memory(ctx, case, "randf", [out], [x], RF_again):
+        return False
+    out = out_keep
     nB = max(1, batch_items(case)) if case.get("batch") else 1
     outs = out.reshape(nB, num, D)
     xs = x.reshape(nB, N, D)
@@ -969,7 +1138,7 @@ def check_randf(ctx: Ctx, case, jobs: Jobs | None = None) -> bool:
             if mode == "real":
                 torch.manual_seed(case["data_seed"])
             with U.observe_rng(mode, script):
-                o1 = P.random_filter(xs[b], num)
+                o1 = RF(xs[b])
             if not torch.equal(o1, outs[b]):
                 ctx.fail(case, f"randf-itemwise: batch item {b} alone (same draw) gives other rows than inside the batch")
                 return False
@@ -1069,11 +1238,23 @@ def check_camera(ctx: Ctx, case, jobs: Jobs | None = None) -> bool:
     elif case.get("layout") == "expandK" and case["bk"]:
         K = K.reshape(-1, 3, 3)[0].expand(tuple(case["bk"]) + (3, 3)).clone()
         KT = K.reshape(-1, 3, 3)[0].to(T).expand(tuple(case["bk"]) + (3, 3))      # stride-0 intrinsics
-    extT = P.SE3(ext.to(T)) if ext is not None else None
+    ptsT, pxT, depthT = prep(ptsT, case), prep(pxT, case), prep(depthT, case)
+    KT = ptsT if case.get("aliasK") else prep(KT, case)
+    extT = P.SE3(prep(ext.to(T), case)) if ext is not None else None
+    style = case.get("style", "kw")
+
+    def P2P(p_, k_, e_):
+        return styled("point2pixel", style, (p_, k_), [("extrinsics", e_, None)])
+
+    def REP(p_, x_, k_, e_, red_):
+        return styled("reprojerr", style, (p_, x_, k_), [("extrinsics", e_, None), ("reduction", red_, "none")])
+
+    def PX2PT(x_, d_, k_):
+        return styled("pixel2point", "kwreq" if style == "kwreq" else "kw", (x_, d_, k_), [])
     mon = common.PurityMonitor()
     args = (ptsT, KT) if ext is None else (ptsT, KT, extT)
     try:
-        uv = mon.call("point2pixel", P.point2pixel, *args)
+        uv = mon.call("point2pixel", lambda *a_: P2P(a_[0], a_[1], a_[2] if len(a_) > 2 else None), *args)
     except Exception as e:
         ctx.fail(case, f"camera-raises: point2pixel raises on a valid call: {type(e).__name__}: {str(e)[:120]}")
         return False
@@ -1082,6 +1263,11 @@ def check_camera(ctx: Ctx, case, jobs: Jobs | None = None) -> bool:
     if tuple(uv.shape) != tuple(bshape) + (n, 2):
         ctx.fail(case, f"camera-shape: point2pixel returned {tuple(uv.shape)}, documented {tuple(bshape) + (n, 2)}")
         return False
+    uv_keep = uv.clone()
+    if not owns_memory(ctx, case, "camera", [uv], [ptsT, KT] + ([extT.tensor()] if ext is not None else []),
+                       lambda: [P2P(ptsT, KT, extT)]):
+        return False
+    uv = uv_keep
     # broadcast everything to (B, n, .) in float64 for the item-wise comparison
     B = int(math.prod(bshape))
     ptsB = pts.expand(tuple(bshape) + (n, 3)).reshape(B, n, 3)
@@ -1115,7 +1301,7 @@ def check_camera(ctx: Ctx, case, jobs: Jobs | None = None) -> bool:
         for b in range(B):
             a1 = (ptsB[b].to(T), KB[b].to(T)) if ext is None else (ptsB[b].to(T), KB[b].to(T), P.SE3(extB[b].to(T)))
             try:
-                u1 = P.point2pixel(*a1).double()
+                u1 = P2P(a1[0], a1[1], a1[2] if len(a1) > 2 else None).double()
             except Exception as e:
                 ctx.fail(case, f"camera-itemwise: point2pixel raises on batch item {b} alone: {type(e).__name__}: {str(e)[:100]}")
                 return False
@@ -1144,8 +1330,7 @@ def check_camera(ctx: Ctx, case, jobs: Jobs | None = None) -> bool:
     # reprojerr == 0 exactly on the projected pixels, != 0 off them (all reductions)
     for red in ("none", "norm", "sum"):
         try:
-            a2 = (ptsT, uv, KT) if ext is None else (ptsT, uv, KT, extT)
-            e0 = P.reprojerr(*a2, reduction=red)
+            e0 = REP(ptsT, uv, KT, extT, red)
         except Exception as e:
             ctx.fail(case, f"camera-raises: reprojerr raises on a valid call: {type(e).__name__}: {str(e)[:120]}")
             return False
@@ -1166,8 +1351,7 @@ def check_camera(ctx: Ctx, case, jobs: Jobs | None = None) -> bool:
         off = torch.tensor(pat, dtype=T) * mag
         pix = uv + off
         delta = (uv - pix)            # what an exact reprojection error would be
-        a3 = (ptsT, pix, KT) if ext is None else (ptsT, pix, KT, extT)
-        e1 = P.reprojerr(*a3, reduction=red)
+        e1 = REP(ptsT, pix, KT, extT, red)
         if red == "none":
             wantE = delta
         elif red == "norm":
@@ -1207,8 +1391,12 @@ def check_camera(ctx: Ctx, case, jobs: Jobs | None = None) -> bool:
     if not case.get("general_K"):
         bsh2 = torch.broadcast_shapes(tuple(case["bp"]), tuple(case["bk"]))
         try:
-            P3 = mon.call("pixel2point", P.pixel2point, pxT, depthT, KT)
-            back = P.point2pixel(P3, KT)
+            P3 = mon.call("pixel2point", PX2PT, pxT, depthT, KT)
+            back = P2P(P3, KT, None)
+            p3_keep = P3.clone()
+            if not owns_memory(ctx, case, "camera", [P3], [pxT, depthT, KT], lambda: [PX2PT(pxT, depthT, KT)]):
+                return False
+            P3 = p3_keep
         except Exception as e:
             ctx.fail(case, f"camera-raises: pixel2point / point2pixel raise on a valid call: {type(e).__name__}: {str(e)[:120]}")
             return False
@@ -1253,8 +1441,8 @@ def check_camera(ctx: Ctx, case, jobs: Jobs | None = None) -> bool:
         # other direction: points with usable depth -> pixels -> points
         if ext is None:
             zok = (pts[..., 2].abs() > 1e-6 if d == "float64" else pts[..., 2].abs() > 1e-2)
-            uv2 = P.point2pixel(ptsT, KT)
-            P4 = P.pixel2point(uv2, ptsT[..., 2].expand(uv2.shape[:-1]), KT).double()
+            uv2 = P2P(ptsT, KT, None)
+            P4 = PX2PT(uv2, ptsT.detach()[..., 2].expand(uv2.shape[:-1]), KT).double()
             ptsE = pts.expand_as(P4)
             tolp = 64 * eps * (ptsE.abs() + 2 * (cxy.abs() * ptsE[..., 2:3].abs() / fxy.abs()).expand_as(ptsE[..., :2]).abs().amax(-1, keepdim=True))
             badp = far(P4, ptsE, tolp) & zok.expand(P4.shape[:-1]).unsqueeze(-1)
@@ -1279,12 +1467,19 @@ def check_homo(ctx: Ctx, case, jobs: Jobs | None = None) -> bool:
     m = int(math.prod(shape))
     big = case.get("mag", 1.0)
     p = torch.tensor([lad(r, -3, 3) * big if r.random() < 0.9 else 0.0 for _ in range(m)], dtype=torch.float64).reshape(shape).to(T)
+    p_plain = p
+    p = prep(p, case)
     try:
-        h = P.cart2homo(p)
-        back = P.homo2cart(h)
+        h = P.cart2homo(p).detach()
+        back = P.homo2cart(prep(h, case)).detach()
     except Exception as e:
         ctx.fail(case, f"homo-raises: cart2homo/homo2cart raise: {type(e).__name__}: {str(e)[:120]}")
         return False
+    h_keep, back_keep = h.clone(), back.clone()
+    if not owns_memory(ctx, case, "homo", [h], [p], lambda: [P.cart2homo(p)]) or \
+            not owns_memory(ctx, case, "homo", [back], [h_keep], lambda: [P.homo2cart(h_keep)]):
+        return False
+    h, back, p = h_keep, back_keep, p_plain
     if tuple(h.shape) != shape[:-1] + (shape[-1] + 1,) or not torch.equal(h[..., :-1], p) or not bool((h[..., -1] == 1).all()):
         ctx.fail(case, "homo-cart2homo: cart2homo(p) is not p with a one appended")
         return False
@@ -1306,7 +1501,7 @@ def check_homo(ctx: Ctx, case, jobs: Jobs | None = None) -> bool:
     if case.get("layout") == "cols" and hq.dim() >= 2:
         hq = lay(hq, "cols")
     keep = hq.clone()
-    out = P.homo2cart(hq)
+    out = P.homo2cart(prep(hq, case) if case.get("gmode") in ("req", "graph", "param") else hq).detach()
     if not torch.equal(hq, keep):
         ctx.fail(case, "homo-mutates: homo2cart changed its argument")
         return False
@@ -1352,9 +1547,13 @@ def gen_common(rng, hiN, **over):
     c = {"kind": rng.choice(U.KINDS), "N": U.pick_N(rng, hiN), "pdim": pdim, "extra": rng.choice([0, 0, 1, 2, 3]),
          "dtype": rng.choice(["float32", "float64"]), "ord": rng.choice(ORDS), "data_seed": rng.randrange(1 << 30),
          "perm_seed": rng.randrange(1 << 30) if rng.random() < 0.5 else None, "layout": rng.choice(LAYOUTS)}
+    c.update({"style": rng.choice(STYLES), "gmode": rng.choice(GMODES), "int_scalars": rng.random() < 0.3,
+              "own_check": rng.random() < 0.35})
     c.update({k_: v for k_, v in over.items() if k_ in c or k_ in ("mag_exp",)})
     if "mag_exp" not in c:
-        c["mag_exp"] = rng.choice(MAGS[c["dtype"]])
+        c["mag_exp"] = rng.choice(MAGS.get(c["dtype"], [0]))
+    if c["dtype"].startswith("int"):
+        c["mag_exp"], c["gmode"] = 0, None
     return c
 
 
@@ -1444,6 +1643,18 @@ def derive_voxel(rng, c, vd, X64=None, mode_over=None):
         span = float(col.max() - col.min())
         base = span / rng.choice([1, 2, 3, 5, 9, 0.5, 40]) if span > 0 else 2.0 ** c.get("mag_exp", 0)
         mode = rng.random() if mode_over is None else mode_over
+        gaps = [float(q - col.min()) for q in col.tolist() if q > float(col.min())]
+        if gaps and ((mode_over is None and rng.random() < 0.15) or mode_over in ("gap+", "gap-", "gap")):
+            # cell size relative to the point spacing: a point sits just inside / just outside / exactly on a cell boundary
+            g = rng.choice(gaps) / rng.choice([1, 1, 2, 3])
+            sgn = {"gap+": 1, "gap-": -1, "gap": 0}.get(mode_over, rng.choice([1, -1, 0]))
+            v = f32(g * (1 + sgn * 2.0 ** -10))
+            if v != 0 and math.isfinite(v) and span / abs(v) < 2.0 ** 40:
+                vox.append(v)
+                continue
+            mode = 0.2
+        elif isinstance(mode, str):
+            mode = 0.2
         if mode < 0.45:
             v = 2.0 ** round(math.log2(base)) if base > 0 else 1.0      # power of two: exact cell hits on fixed-point clouds
         elif mode < 0.7:
@@ -1468,9 +1679,14 @@ def gen_voxel_case(rng, hiN, **over):
     c = gen_common(rng, hiN, **over)
     c["stream"] = "voxel"
     if "mag_exp" not in over:
-        c["mag_exp"] = rng.choice(VOX_MAGS[c["dtype"]])
+        c["mag_exp"] = rng.choice(VOX_MAGS.get(c["dtype"], [0]))
     c["random"] = over.get("random", rng.random() < 0.4)
     c["rng_mode"] = over.get("rng_mode", rng.choice(["lo", "hi", "hi", "script", "real"])) if c["random"] else None
+    c["vox_form"] = over.get("vox_form", rng.choice(["list", "list", "tuple"]))
+    if c["random"] and "dtype" not in over and rng.random() < 0.15:
+        c["dtype"], c["mag_exp"], c["gmode"] = rng.choice(["int64", "int32"]), 0, None
+    if c["dtype"].startswith("int") and not c["random"]:
+        c["dtype"] = "float64"
     vd = rng.randint(1, c["pdim"]) if (c["extra"] == 0 and rng.random() < 0.5) else c["pdim"]
     derive_voxel(rng, c, vd, mode_over=over.get("vox_mode"))
     return c
@@ -1502,7 +1718,11 @@ def gen_randf_case(rng, hiN, **over):
     c["num"] = over["num"](c["N"]) if "num" in over else rng.choice(
         [c["N"], c["N"], max(0, c["N"] - 1), rng.randint(0, c["N"]), 1 if c["N"] else 0, 0])
     c["rng_mode"] = over.get("rng_mode", rng.choice(["real", "real", "hi", "lo", "script", "script"]))
+    if "dtype" not in over and rng.random() < 0.15:
+        c["dtype"], c["mag_exp"], c["gmode"] = rng.choice(["int64", "int32"]), 0, None
     mix_items(rng, c)
+    if c["dtype"].startswith("int"):
+        c.pop("item_mags", None)
     return c
 
 
@@ -1558,6 +1778,7 @@ def gen_hist_case(rng, nsteps=8):
         N = o["N"]
         spec = spec_of(o)
         c = {"stream": st, "keep": key, "bump": o["bumps"], "perm_seed": None, "layout": None, "ord": rng.choice(ORDS),
+             "style": rng.choice(STYLES), "gmode": None, "int_scalars": rng.random() < 0.3, "own_check": rng.random() < 0.3,
              "obj": dict(spec), **spec}
         X64 = state(key)
         if st in ("nbr", "knnf"):
@@ -1699,7 +1920,10 @@ def gen_camera_case(rng, **over):
          "zmode": rng.choice(["ladder", "plain"]), "data_seed": rng.randrange(1 << 30)}
     c["span"] = rng.choice([0, 0, 0, 3] if c["dtype"] == "float32" else [0, 0, 0, 10, 40])
     c["layout"] = rng.choice([None] * 6 + ["views", "views", "expandK"])
+    c.update({"style": rng.choice(STYLES), "gmode": rng.choice(GMODES), "own_check": rng.random() < 0.35})
     c.update(over)
+    if c.get("gmode") is not None and c.get("layout") == "expandK":
+        c["layout"] = None
     if c.get("aliasK"):
         c.update(bp=[], bk=[], be=[], ext=False, n=3, general_K=True, layout=None)
     return c
@@ -1712,7 +1936,7 @@ def gen_homo_case(rng, **over):
     dtp = over.get("dtype", rng.choice(["float32", "float64"]))
     c = {"stream": "homo", "shape": rng.choice([[1], [2], [3], [4], [7], [2, 3], [5, 2], [2, 1, 4], [3, 2, 2]]),
          "dtype": dtp, "mag": rng.choice(HOMO_MAGS[dtp]), "layout": rng.choice([None, None, "cols"]),
-         "data_seed": rng.randrange(1 << 30)}
+         "gmode": rng.choice(GMODES), "own_check": rng.random() < 0.35, "data_seed": rng.randrange(1 << 30)}
     c.update(over)
     return c
 
@@ -1738,7 +1962,8 @@ def guarded(ctx: Ctx, c, jobs):
     the implementation on this input, not an infrastructure problem (the unchanged tree never takes this path)"""
     _BASES.clear()
     try:
-        ok = CHECKS[c["stream"]](ctx, c, jobs)
+        with mode_ctx(c):
+            ok = CHECKS[c["stream"]](ctx, c, jobs)
         for base, snap in _BASES:
             if not torch.equal(torch.nan_to_num(base, nan=1.5), torch.nan_to_num(snap, nan=1.5)):
                 ctx.fail(c, f"{c['stream']}-aliasing: memory outside / behind the view handed in (layout {c.get('layout')}) "
